@@ -61,6 +61,8 @@ namespace
     int bounds = 0, world = 0;
     int mode = 0;        // 0 plain, 1 --filtered, 2 --by-tag, 3 both
     int format = 0;      // vtu_output_format: 0 ASCII, 1 Base64Inline, 2 Base64Appended, 3 RawBinary, 4 RawBinaryCompressed
+    unsigned limit = 0;  // --resolution-limit X (0: option not given); nx, ny, nz are the cell counts in effect, fnx, fny, fnz the ones written to the grid file
+    unsigned fnx = 0, fny = 0, fnz = 0;
     double x0 = 0, x1 = 0, y0 = 0, y1 = 0, z0 = 0, z1 = 0;
   };
   const char *TYPE_NAMES[] = {"cartesian", "chunk", "annulus", "sphere"};
@@ -78,7 +80,7 @@ namespace
   std::string describe(const GCfg &c)
   {
     return JObj().str("grid_type", TYPE_NAMES[c.type]).integer("dim", c.dim).integer("n_cell_x", c.nx).integer("n_cell_y", c.ny).integer("n_cell_z", c.nz)
-           .integer("compositions", c.comps).integer("threads", c.threads).integer("world", c.world).integer("mode", c.mode).str("vtu_output_format", FORMATS[c.format])
+           .integer("compositions", c.comps).integer("threads", c.threads).integer("world", c.world).integer("mode", c.mode).str("vtu_output_format", FORMATS[c.format]).integer("resolution_limit_option", c.limit).integer("n_cell_x_in_file", c.limit ? c.fnx : c.nx).integer("n_cell_y_in_file", c.limit ? c.fny : c.ny).integer("n_cell_z_in_file", c.limit ? c.fnz : c.nz)
            .raw("bounds", "[" + wbgen::num(c.x0) + "," + wbgen::num(c.x1) + "," + wbgen::num(c.y0) + "," + wbgen::num(c.y1) + "," + wbgen::num(c.z0) + "," + wbgen::num(c.z1) + "]").done();
   }
   std::string grid_file(const GCfg &c)
@@ -86,9 +88,9 @@ namespace
     std::string t = "# grid written by the C18 checker\ngrid_type = " + std::string(TYPE_NAMES[c.type]) + "\ndim = " + std::to_string(c.dim) + "\ncompositions = " + std::to_string(c.comps) + "\nvtu_output_format = " + FORMATS[c.format] + "\n\n";
     t += "x_min = " + wbgen::num(c.x0) + "\nx_max = " + wbgen::num(c.x1) + "\n";
     if (c.dim == 3 || c.type == 2 || c.type == 1) t += "y_min = " + wbgen::num(c.y0) + "\ny_max = " + wbgen::num(c.y1) + "\n";
-    t += "z_min = " + wbgen::num(c.z0) + "\nz_max = " + wbgen::num(c.z1) + "\n# cells\nn_cell_x = " + std::to_string(c.nx) + "\n";
-    if (c.dim == 3 || c.type == 2 || c.type == 1) t += "n_cell_y = " + std::to_string(c.ny) + "\n";
-    t += "n_cell_z = " + std::to_string(c.nz) + "\n";
+    t += "z_min = " + wbgen::num(c.z0) + "\nz_max = " + wbgen::num(c.z1) + "\n# cells\nn_cell_x = " + std::to_string(c.limit ? c.fnx : c.nx) + "\n";
+    if (c.dim == 3 || c.type == 2 || c.type == 1) t += "n_cell_y = " + std::to_string(c.limit ? c.fny : c.ny) + "\n";
+    t += "n_cell_z = " + std::to_string(c.limit ? c.fnz : c.nz) + "\n";
     return t;
   }
 
@@ -150,6 +152,17 @@ namespace
       { GCfg c; c.type = 0; c.dim = 3; c.nx = 16; c.ny = 16; c.nz = 16; c.comps = 1; c.threads = 4; c.format = fmt; set_bounds(c); v.push_back(c); }
     { GCfg c; c.type = 1; c.dim = 3; c.nx = 12; c.ny = 11; c.nz = 9; c.comps = 2; c.threads = 6; c.format = 4; set_bounds(c); v.push_back(c); }
     { GCfg c; c.type = 0; c.dim = 2; c.nx = 70; c.nz = 64; c.comps = 3; c.threads = 7; c.format = 4; set_bounds(c); v.push_back(c); }
+    // --resolution-limit X: every cell count of the file is capped at X
+    for (unsigned lim : {1u, 2u, 3u, 5u, 100u})
+      for (int type : {0, 1, 2, 3})
+        {
+          GCfg c; c.type = type; c.dim = type == 2 ? 2 : 3; c.limit = lim; c.comps = 2; c.threads = 1 + lim % 3;
+          c.fnx = type == 3 ? 4 : 5; c.fny = type == 3 ? 4 : 4; c.fnz = 6;
+          if (type == 2) { c.fnx = 8; c.fny = 8; }
+          c.nx = std::min(c.fnx, lim); c.ny = std::min(c.fny, lim); c.nz = std::min(c.fnz, lim);
+          set_bounds(c); v.push_back(c);
+          if (type == 0) { c.dim = 2; set_bounds(c); v.push_back(c); }
+        }
     return v;
   }
 
@@ -725,6 +738,7 @@ namespace
     if (c.threads != 1 || idx % 2 == 0) { args.push_back("-j"); args.push_back(std::to_string(c.threads)); }
     if (c.mode & 1) args.push_back("--filtered");
     if (c.mode & 2) args.push_back("--by-tag");
+    if (c.limit) { args.push_back("--resolution-limit"); args.push_back(std::to_string(c.limit)); }
     args.push_back(wb); args.push_back(gridp);
     Reporter fail{ctx, c, wbtext, gridtext, ""};
     const GridRun r = run_grid(args);
@@ -844,7 +858,7 @@ int main(int argc, char **argv)
   spec.property = "C18";
   spec.level = "exploration";
   spec.rule = "full product of grid type x dim x cell counts (n_cell_x, n_cell_y, n_cell_z each in 1..3|5) x 2 bound sets x 2 worlds, with compositions {0,2,4}, threads {1,2,3} and output mode "
-              "{plain, --filtered, --by-tag, both} and output format assigned round-robin (quick) or all four modes x all five formats per tuple (thorough), plus finer grids and grids with 1331 / 4913 / 4615 nodes (thread counts 2..16, all five formats; arrays spanning several compression blocks); one in-process run of the real gwb-grid main() per "
+              "{plain, --filtered, --by-tag, both} and output format assigned round-robin (quick) or all four modes x all five formats per tuple (thorough), plus finer grids and grids with 1331 / 4913 / 4615 nodes (thread counts 2..16, all five formats; arrays spanning several compression blocks) and the option --resolution-limit {1,2,3,5,100} on every grid type; one in-process run of the real gwb-grid main() per "
               "configuration. non-trivial: at least one node lies inside a feature (tag >= 0)";
   spec.assumptions = {"the arrays are captured at the call of vtu11::writeVtu (full precision); the written file is parsed back: ASCII files are compared with the %.6g rendering of the arrays, Base64Inline / Base64Appended / RawBinary / RawBinaryCompressed files are decoded the way a VTK reader does (format, offset and header attributes, zlib blocks) and compared byte for byte",
                       "requested mesh: cartesian and chunk grids must be exactly the (n+1)-point lattice between the bounds (chunk: longitude, latitude, radius mapped to cartesian), cells the lattice cells in valid VTK node order; "
